@@ -215,6 +215,14 @@ def handleAGen (j : Json) : R Json := do
       ("trace", Json.arr (tr.map traceItemToJson).toArray),
       ("rest", natToJson rest.length)])
 
+def handleCProb (j : Json) : R Json := do
+  let firstTok ← boolOf (← getF j "firstIsToken")
+  let cands ← listOf (fun c => do pure ((← ratOf (← getF c "w")), (← ratOf (← getF c "m")), (← boolOf (← getF c "ok")))) (← getF j "cands")
+  let blocks ← listOf (fun b => do pure ({ n := (← natOf (← getF b "n")), u := (← ratOf (← getF b "u")) } : ChainBlock)) (← getF j "blocks")
+  let pts := chainPoints (startFrags firstTok cands) blocks
+  pure (Json.mkObj [("starts", Json.arr (pts.map fun (p, l) =>
+    Json.mkObj [("p", ratToJson p), ("pts", Json.arr (l.map fun (v, pr) => ratsToJson [v, pr]).toArray)]).toArray)])
+
 def handle (j : Json) : R Json := do
   let op ← strOf (← getF j "op")
   match op with
@@ -233,6 +241,7 @@ def handle (j : Json) : R Json := do
   | "ASSIGN" => handleAssign j
   | "FFREAD" => handleFFRead j
   | "COMPATMAT" => handleCompatMat j
+  | "CPROB" => handleCProb j
   | _ => throw s!"unknown op {op}"
 
 def handleLine (line : String) : String :=
